@@ -53,10 +53,21 @@ def main():
     # the demo must not be part of the suite run (it is expected to fail): move test demos aside
     demo_files = [f for f in os.listdir(out) if f.endswith(".rs")]
     moved = []
-    for f in demo_files:
-        for sub in ("tests", "examples"):
-            pth = os.path.join(wt, sub, f)
-            if os.path.exists(pth):
+    candidates = []
+    for root, _dirs, files in os.walk(out):
+        for f in files:
+            if not f.endswith(".rs"):
+                continue
+            rel = os.path.relpath(os.path.join(root, f), out)
+            candidates.append(rel)
+            # a copy at the top level of seed_out usually lives in tests/ or examples/ (also of a member crate)
+            for sub in ("tests", "examples", "astronimical_quantities/tests", "qty-macros/tests"):
+                candidates.append(os.path.join(sub, f))
+    for rel in candidates:
+        pth = os.path.join(wt, rel)
+        if os.path.exists(pth) and not pth.startswith(out) and pth not in moved:
+            st = run(["git", "ls-files", "--error-unmatch", rel], wt)
+            if st.returncode != 0:  # untracked = belongs to the demonstration
                 shutil.move(pth, pth + ".aside")
                 moved.append(pth)
     compiled, passed, failed = suite(wt)
